@@ -732,3 +732,17 @@ _amend("C12", "(21 length classes; hash managers with 1, 3 and 36 jobs)",
 _amend("C06", "evaluations = library calls checked against the sequential job-accounting model;",
        "about one history in three re-initialises the manager with jobs in flight; in a third of the histories one context lives at a 4 GiB-aligned address; the base code also in the portable configuration "
        "(make arch=noarch); evaluations = library calls checked against the sequential job-accounting model;")
+_amend("C15", "Small random histories add the total_length check at every hand-back.",
+       "Small random histories add the total_length check at every hand-back. Per (algorithm, family) two jobs buffer a partial block of p bytes and then submit one segment that brings p + len to 2^31 resp. 2^32 "
+       "(sums of the two lengths formed in 32 bits or in a signed int). The lane-magnitude probe also sets whole lane subsets (halves, parity classes, quarters, all-but-one) to >= 2^31 bytes at once.")
+_amend("C06", "evaluations = library calls checked against the sequential job-accounting model;",
+       "before every call the public accessor macros isal_hash_ctx_complete() / isal_hash_ctx_processing() are evaluated on every context and compared with the model; an accepted job must come back with "
+       "error 0 unless a rejected submit hit that very context while it was in flight; the lane-magnitude probe also sets whole lane subsets to >= 2^31 bytes at once; "
+       "evaluations = library calls checked against the sequential job-accounting model;")
+_amend("C05", "random buffer alignment;", "random buffer alignment; after finalize the documented digest field of the context must equal the digest written to the output buffer;")
+_amend("C03", "random alignment of data, keys and tweak;", "random alignment of data, keys and tweak; every sixteenth case has key2 equal to key1 (only the FIPS_MODE build refuses that);")
+_amend("C20", "run under 0x00 / 0xff / random junk in manager and context memory", "run under 0x00 / 0xff / random junk in manager and context memory (for the rolling-hash state also: every word equal to the requested window, a plausible stale object)")
+_amend("C16", "(c) in-domain variants", "(b2) for the GCM entry points len = ISAL_GCM_MAX_LEN with the data pointers in the PROT_NONE region: the call must get past its parameter checks (it faults on its first data access) "
+       "instead of returning the length code; (a)-(c) also on the FIPS_MODE build, where the wrappers have blocks of their own around the parameter checks (non-approved algorithms answer FIPS_INVALID_ALGO there); "
+       "(c) in-domain variants")
+_amend("C12", "(21 length classes;", "(21 length classes, GCM messages of 4200 and 8300 bytes so that the low counter byte wraps, XTS lengths with every number of trailing blocks with and without ciphertext stealing;")
